@@ -11,6 +11,7 @@
 #include <photon/thread/thread.h>
 #include <memory>
 #include <cstring>
+#include <algorithm>
 using namespace photon;
 
 static int g_vcpus = 2, g_threads = 3, g_ops = 4, g_execs = 50;
@@ -729,6 +730,266 @@ static bool exec_sleep(const std::string& prim, int ex, vt::Rng& r) {
     return true;
 }
 
+
+// ------------------------------------------------------------------------------------------------ conductor (scripted sequences)
+// All workers live on ONE vCPU, where photon threads switch only at blocking points.  The conductor (main thread) executes a
+// script step by step: it tells one worker to perform one operation (or a compound of two back-to-back operations), lets the
+// system run until every worker is either waiting for its next command or asleep inside the library, and then takes the next
+// step.  Arrival orders of calls are therefore exactly the script's order; timeouts expire only at explicit "advance time"
+// steps; interrupts are explicit steps.  Scripts are either read from a file (one per line, produced by TLC from
+// spec/SyncScripts.tla) or generated at random among the currently enabled steps.  Events are the same Inv/Resp/... as in the
+// free-running modes, so the same Tier-A trace specifications judge the executions.
+//
+// step syntax:  <thread>:<op>   |  A (advance time past the short timeouts)  |  I<thread> (interrupt)
+//   lock family / rwlock ops: L<m><to>  T<m>  U  X<m>   (m: M mutex, R read, W write; to: 1 short, 2 none; X = unlock + lock(m) back to back)
+//   semaphore ops:            W<n><to>  S<n>           condition variable ops: C<to> (lock; wait; unlock)  N1 / NA (+l: holding the lock)
+struct CWorker {
+    vtp::Worker w; std::string cmd; std::atomic<int> state{0};   // 0 idle, 1 commanded / in op
+    int held = 0;          // 0 none, 1 read/mutex, 2 write
+    Prog prog;
+};
+struct Conductor {
+    std::string kind;      // mutex | rw | qrw | sem | cv | cvspin
+    mutex* mtx = nullptr; rwlock* rw = nullptr; qrwlock* qrw = nullptr; semaphore* sem = nullptr;
+    condition_variable* cv = nullptr; spinlock* spl = nullptr; mutex* cvm = nullptr;
+    std::vector<std::unique_ptr<CWorker>> ws;
+    std::atomic<bool> quit{false};
+    static constexpr uint64_t SHORT_US = 300;
+
+    int do_lock(CWorker* c, char m, char to) {
+        int id = c->w.id; int kind = to == '1' ? TO_SHORT : TO_INF;
+        Timeout t = kind == TO_SHORT ? Timeout(SHORT_US) : Timeout();
+        int mode = m == 'W' ? 2 : 1;
+        c->prog.opno++; c->prog.mode = mode;
+        if (this->kind == "mutex") vt::Ev("Inv").i("t", id).s("op", "lock").i("to", kind).i("us", kind == TO_SHORT ? (int64_t)SHORT_US : -1);
+        else vt::Ev("Inv").i("t", id).s("op", "lock").i("mode", mode).i("to", kind);
+        c->prog.blocked_in = 1; errno = 0;
+        int ret = this->kind == "mutex" ? mtx->lock(t) : this->kind == "rw" ? rw->lock(mode == 1 ? RLOCK : WLOCK, t) : qrw->lock(mode == 1 ? RLOCK : WLOCK, t);
+        int en = ret < 0 ? errno : 0;
+        c->prog.blocked_in = 0;
+        vt::Ev("Resp").i("t", id).s("op", "lock").i("r", ret).i("en", en);
+        if (ret == 0) c->held = mode;
+        return ret;
+    }
+    void do_try(CWorker* c, char m) {
+        int id = c->w.id; int mode = m == 'W' ? 2 : 1;
+        if (kind == "mutex") vt::Ev("Inv").i("t", id).s("op", "try_lock"); else vt::Ev("Inv").i("t", id).s("op", "try_lock").i("mode", mode);
+        int ret = kind == "mutex" ? mtx->try_lock() : qrw->try_lock(mode == 1 ? RLOCK : WLOCK);
+        vt::Ev("Resp").i("t", id).s("op", "try_lock").i("r", ret).i("en", 0);
+        if (ret == 0) c->held = mode;
+    }
+    void do_unlock(CWorker* c) {
+        int id = c->w.id;
+        if (kind == "mutex") vt::Ev("CsEnter").i("t", id); else vt::Ev("CsEnter").i("t", id).i("mode", c->held);
+        vt::Ev("CsExit").i("t", id);
+        vt::Ev("Inv").i("t", id).s("op", "unlock");
+        int ret = 0;
+        if (kind == "mutex") mtx->unlock(); else ret = kind == "rw" ? rw->unlock() : qrw->unlock();
+        vt::Ev("Resp").i("t", id).s("op", "unlock").i("r", ret).i("en", 0);
+        c->held = 0;
+    }
+    void do_sem(CWorker* c, const std::string& op) {
+        int id = c->w.id;
+        if (op[0] == 'S') {
+            int64_t n = op[1] - '0';
+            vt::Ev("Inv").i("t", id).s("op", "signal").i("n", n);
+            sem->signal(n);
+            vt::Ev("Resp").i("t", id).s("op", "signal").i("r", 0).i("en", 0);
+        } else {
+            int64_t n = op[1] - '0'; int kind_ = op[2] == '1' ? TO_SHORT : TO_INF;
+            Timeout t = kind_ == TO_SHORT ? Timeout(SHORT_US) : Timeout();
+            c->prog.opno++; c->prog.arg = n;
+            vt::Ev("Inv").i("t", id).s("op", "waiti").i("n", n).i("to", kind_);
+            c->prog.blocked_in = 1; errno = 0;
+            int ret = sem->wait_interruptible(n, t);
+            int en = ret < 0 ? errno : 0;
+            c->prog.blocked_in = 0;
+            vt::Ev("Resp").i("t", id).s("op", "waiti").i("r", ret).i("en", en);
+        }
+    }
+    void do_cv(CWorker* c, const std::string& op) {
+        int id = c->w.id; bool spin = kind == "cvspin";
+        auto lk = [&] { if (spin) spl->lock(); else cvm->lock(); vt::Ev("Acq").i("t", id); };
+        auto ul = [&] { vt::Ev("Rel").i("t", id); if (spin) spl->unlock(); else cvm->unlock(); };
+        if (op[0] == 'C') {
+            int kind_ = op[1] == '1' ? TO_SHORT : TO_INF;
+            lk();
+            uint64_t t0 = photon::__update_now();
+            Timeout t = kind_ == TO_SHORT ? Timeout(SHORT_US) : Timeout();
+            c->prog.opno++;
+            vt::Ev("Inv").i("t", id).s("op", "cvwait").i("to", kind_).i("us", kind_ == TO_SHORT ? (int64_t)SHORT_US : -1);
+            c->prog.blocked_in = 1; errno = 0;
+            int ret = spin ? cv->wait(*spl, t) : cv->wait(*cvm, t);
+            int en = ret < 0 ? errno : 0;
+            c->prog.blocked_in = 0;
+            uint64_t t1 = photon::__update_now();
+            vt::Ev("Resp").i("t", id).s("op", "cvwait").i("r", ret).i("en", en).i("dt", (int64_t)(t1 - t0));
+            ul();
+        } else {
+            bool all = op[1] == 'A'; bool locked = op.size() > 2 && op[2] == 'l';
+            if (locked) lk();
+            vt::Ev("Inv").i("t", id).s("op", all ? "notify_all" : "notify_one");
+            int64_t res;
+            if (all) res = cv->notify_all(); else { thread* th = cv->notify_one(); res = th ? vtp::reg().get(th) : 0; }
+            vt::Ev("Resp").i("t", id).s("op", all ? "notify_all" : "notify_one").i("r", res).i("en", 0);
+            if (locked) ul();
+        }
+    }
+    void perform(CWorker* c, const std::string& op) {
+        if (kind == "sem") return do_sem(c, op);
+        if (kind == "cv" || kind == "cvspin") return do_cv(c, op);
+        switch (op[0]) {
+        case 'L': do_lock(c, op[1], op[2]); break;
+        case 'T': do_try(c, op[1]); break;
+        case 'U': do_unlock(c); break;
+        case 'X': do_unlock(c); do_lock(c, op[1], '2'); break;       // back to back, no scheduling point in between
+        }
+    }
+    void worker_loop(CWorker* c) {
+        while (true) {
+            while (c->state.load() == 0 && !quit.load()) thread_yield();
+            if (c->state.load() == 0 && quit.load()) break;
+            std::string op = c->cmd;
+            perform(c, op);
+            c->state = 0;
+        }
+        if ((kind == "mutex" || kind == "rw" || kind == "qrw") && c->held) do_unlock(c);
+    }
+    bool busy(CWorker* c) { return c->state.load() == 1; }
+    bool asleep(CWorker* c) { return busy(c) && c->prog.blocked_in.load() && thread_stat(c->w.th) == states::SLEEPING; }
+    // run until every worker is idle or asleep in the library
+    void settle() {
+        for (int round = 0; round < 100000; round++) {
+            bool quiet = true;
+            for (auto& c : ws) if (busy(c.get()) && !asleep(c.get())) quiet = false;
+            if (quiet) {
+                // one more turn of the run queue: a thread woken a moment ago is READY, not SLEEPING, and was caught above
+                return;
+            }
+            thread_yield();
+        }
+    }
+    // enabled steps in the current state (for random generation); returned as strings
+    std::vector<std::string> enabled() {
+        std::vector<std::string> v;
+        bool timed_pending = false, any_asleep = false;
+        for (auto& c : ws) if (asleep(c.get())) any_asleep = true;
+        for (auto& c : ws) {
+            if (busy(c.get())) continue;
+            std::string t = std::to_string(c->w.id) + ":";
+            if (kind == "mutex") {
+                if (c->held) { v.push_back(t + "U"); v.push_back(t + "XM"); }
+                else { v.push_back(t + "LM1"); v.push_back(t + "LM2"); v.push_back(t + "TM"); }
+            } else if (kind == "rw" || kind == "qrw") {
+                if (c->held) { v.push_back(t + "U"); v.push_back(t + "XR"); v.push_back(t + "XW"); }
+                else { for (const char* o : {"LR1", "LR2", "LW1", "LW2"}) v.push_back(t + o);
+                       if (kind == "qrw") { v.push_back(t + "TR"); v.push_back(t + "TW"); } }
+            } else if (kind == "sem") {
+                for (const char* o : {"W11", "W12", "W21", "W22", "S1", "S2"}) v.push_back(t + o);
+            } else {
+                for (const char* o : {"C1", "C2", "N1", "N1l", "NA", "NAl"}) v.push_back(t + o);
+            }
+        }
+        (void)timed_pending;
+        if (any_asleep) { v.push_back("A"); v.push_back("A"); for (auto& c : ws) if (asleep(c.get())) v.push_back("I" + std::to_string(c->w.id)); }
+        return v;
+    }
+    void step(const std::string& st) {
+        if (st == "A") { thread_usleep(SHORT_US * 2 + 200); settle(); return; }
+        if (st[0] == 'I') {
+            int id = atoi(st.c_str() + 1);
+            for (auto& c : ws) if (c->w.id == id && asleep(c.get())) { vt::Ev("Interrupt").i("t", id).i("by", 1); thread_interrupt(c->w.th, EINTR); }
+            settle(); return;
+        }
+        int id = atoi(st.c_str()); std::string op = st.substr(st.find(':') + 1);
+        for (auto& c : ws) if (c->w.id == id) {
+            if (busy(c.get())) return;                                   // still blocked: the step is skipped
+            if ((kind == "mutex" || kind == "rw" || kind == "qrw")) {
+                bool need_held = op[0] == 'U' || op[0] == 'X';
+                if (need_held != (c->held != 0)) return;                  // not applicable in this state: skipped
+            }
+            c->cmd = op; c->state = 1;
+            settle();
+        }
+    }
+};
+
+static bool exec_conduct(const std::string& prim, int ex, vt::Rng& r, const std::string* script) {
+    Conductor C; C.kind = prim.substr(1);      // cmutex, crw, cqrw, csem, ccv, ccvspin
+    mutex m0((uint16_t)(r.coin(50) ? 0 : 2)); rwlock rw; qrwlock qrw; semaphore sem(r.below(2)); condition_variable cv; spinlock spl; mutex cvm;
+    C.mtx = &m0; C.rw = &rw; C.qrw = &qrw; C.sem = &sem; C.cv = &cv; C.spl = &spl; C.cvm = &cvm;
+    int n = 3 + (int)r.below(2);
+    if (script) { n = 0; for (char ch : *script) if (ch >= '1' && ch <= '9') n = std::max(n, ch - '0'); if (n < 2) n = 2; }
+    if (C.kind == "mutex") { vtp::reg().set(&m0, 200); vt::Ev("Reset").s("prim", prim).i("ex", ex).i("n", n).i("vcpus", 1).i("retries", 0).i("cont", 0).b("rec", false).b("timed", true); }
+    else if (C.kind == "sem") { vtp::reg().set(&sem, 200); vt::Ev("Reset").s("prim", prim).i("ex", ex).i("n", n).i("vcpus", 1).i("init", (int64_t)sem.count()).b("ooo", false); }
+    else if (C.kind == "cv" || C.kind == "cvspin") vt::Ev("Reset").s("prim", prim).i("ex", ex).i("n", n).i("vcpus", 1).b("spin", C.kind == "cvspin");
+    else vt::Ev("Reset").s("prim", prim).i("ex", ex).i("n", n).i("vcpus", 1);
+    std::vector<vtp::Worker*> wv;
+    for (int i = 0; i < n; i++) {
+        C.ws.emplace_back(new CWorker()); auto c = C.ws.back().get(); c->w.id = i + 1;
+        Conductor* CP = &C;
+        c->w.body = [CP, c] { CP->worker_loop(c); };
+        wv.push_back(&c->w);
+    }
+    { vtp::GateGuard gg; for (auto w : wv) vtp::spawn_on(w, g_vc.vc[0]); }
+    std::string executed;
+    auto run_step = [&](const std::string& st) { executed += st; executed += ' '; C.step(st); };
+    if (script) {
+        size_t p = 0;
+        while (p < script->size()) { size_t q = script->find(' ', p); if (q == std::string::npos) q = script->size();
+            if (q > p) run_step(script->substr(p, q - p)); p = q + 1; }
+    } else {
+        int len = 4 + (int)r.below(7);
+        for (int k = 0; k < len; k++) { auto en = C.enabled(); if (en.empty()) break; run_step(en[r.below(en.size())]); }
+    }
+    vt::Ev("Script").s("s", executed);
+    // wind down: let timed waits expire, release what is held, then see who is still asleep
+    C.step("A");
+    bool progress = true;
+    while (progress) {
+        progress = false;
+        for (auto& c : C.ws) if (!C.busy(c.get()) && c->held) { C.step(std::to_string(c->w.id) + ":U"); progress = true; }
+    }
+    C.step("A");
+    std::vector<int> blocked;
+    for (size_t i = 0; i < C.ws.size(); i++) if (C.asleep(C.ws[i].get())) blocked.push_back((int)i);
+    int guard = 0;
+    while (!blocked.empty() && guard++ < 20) {
+        if (C.kind == "sem") {
+            vt::Arr a; int64_t need = 0;
+            for (int i : blocked) { a.raw("[" + std::to_string(C.ws[i]->w.id) + "," + std::to_string(C.ws[i]->prog.arg) + "]"); need += C.ws[i]->prog.arg; }
+            vt::Ev("Settle").raw("blocked", a.str()).i("count", (int64_t)sem.count());
+            vt::Ev("Inv").i("t", 91).s("op", "signal").i("n", need); sem.signal(need); vt::Ev("Resp").i("t", 91).s("op", "signal").i("r", 0).i("en", 0);
+        } else if (C.kind == "cv" || C.kind == "cvspin") {
+            vt::Arr a; for (int i : blocked) a.i(C.ws[i]->w.id);
+            vt::Ev("Settle").raw("blocked", a.str());
+            vt::Ev("Inv").i("t", 91).s("op", "notify_all"); int64_t res = cv.notify_all(); vt::Ev("Resp").i("t", 91).s("op", "notify_all").i("r", res).i("en", 0);
+        } else if (C.kind == "mutex") {
+            // nobody holds the mutex any more: a thread still asleep in lock() is stuck
+            vt::Ev("Hang").raw("blocked", "[]").s("where", "asleep in lock() although every holder has unlocked").s("what", prim); vt::flush();
+            return false;
+        } else {
+            vt::Arr a; for (int i : blocked) a.i(C.ws[i]->w.id);
+            vt::Ev("Settle").raw("blocked", a.str());
+            for (int i : blocked) { vt::Ev("Interrupt").i("t", C.ws[i]->w.id).i("by", 3); thread_interrupt(C.ws[i]->w.th, EINTR); }
+        }
+        C.settle();
+        bool progress2 = true;
+        while (progress2) { progress2 = false; for (auto& c : C.ws) if (!C.busy(c.get()) && c->held) { C.step(std::to_string(c->w.id) + ":U"); progress2 = true; } }
+        blocked.clear();
+        for (size_t i = 0; i < C.ws.size(); i++) if (C.asleep(C.ws[i].get())) blocked.push_back((int)i);
+    }
+    C.quit = true;
+    if (!vtp::wait_done(wv, 10 * 1000 * 1000, prim.c_str())) return false;
+    vtp::join_all(wv);
+    if (C.kind == "sem") vt::Ev("Quiesce").i("count", (int64_t)sem.count());
+    else if (C.kind == "mutex") vt::Ev("Quiesce").i("locked", (int)m0.locked());
+    else if (C.kind == "cv") vt::Ev("Quiesce").i("locked", (int)cvm.locked());
+    else if (C.kind == "cvspin") vt::Ev("Quiesce").i("locked", (int)spl.locked());
+    else vt::Ev("Quiesce").i("locked", 0);
+    return true;
+}
+
 int main(int argc, char** argv) {
     std::string prim = vt::arg(argc, argv, "--prim", "mutex");
     g_execs = atoi(vt::arg(argc, argv, "--execs", "50"));
@@ -748,6 +1009,13 @@ int main(int argc, char** argv) {
     g_vc.start(g_vcpus);
     vtp::Watchdog wd; wd.start(20, prim.c_str());
     vt::Rng r(g_seed * 1000003 + std::hash<std::string>()(prim) % 1000);
+    std::vector<std::string> scripts;       // --scripts file: one script per line (conductor modes)
+    if (const char* sf = vt::arg(argc, argv, "--scripts", nullptr)) {
+        FILE* f = fopen(sf, "r"); char line[512];
+        while (f && fgets(line, sizeof line, f)) { std::string l(line); while (!l.empty() && (l.back() == '\n' || l.back() == ' ')) l.pop_back(); if (!l.empty()) scripts.push_back(l); }
+        if (f) fclose(f);
+        if (!scripts.empty() && g_execs > (int)scripts.size()) g_execs = (int)scripts.size();
+    }
     int rc = 0;
     for (int ex = 0; ex < g_execs; ex++) {
         bool ok;
@@ -756,6 +1024,7 @@ int main(int argc, char** argv) {
         else if (prim == "cv" || prim == "cvspin") ok = exec_cv(prim, ex, r);
         else if (prim == "rw" || prim == "qrw") ok = exec_rw(prim, ex, r);
         else if (prim == "rwrace") ok = exec_rwrace(prim, ex, r);
+        else if (prim[0] == 'c' && prim != "cv" && prim != "cvspin") ok = exec_conduct(prim, ex, r, scripts.empty() ? nullptr : &scripts[ex % scripts.size()]);
         else if (prim == "sleep") ok = exec_sleep(prim, ex, r);
         else ok = os_clients ? exec_lock_os(prim, ex, r) : exec_lock_photon(prim, ex, r);
         if (!ok) { rc = 4; break; }
